@@ -24,6 +24,7 @@
  * With env QSX_CAPTURE=<prefix> fd 1 and fd 2 are redirected to <prefix>.1 / <prefix>.2 and the
  * harness prints `CAP <bytes on fd1> <bytes on fd2>` at every CASE marker. */
 static FILE *qsx_out = NULL;
+static FILE *qsx_get_out (void);
 static int qsx_cap_on = 0;
 static char qsx_cap1[1024], qsx_cap2[1024];
 #include <sys/stat.h>
@@ -31,6 +32,7 @@ static char qsx_cap1[1024], qsx_cap2[1024];
 static void qsx_capture_init (void)
 {
 	const char *pre = getenv ("QSX_CAPTURE");
+	if (qsx_out) return;
 	int fd = dup (1);
 	qsx_out = fdopen (fd, "w");
 	if (pre && *pre)
@@ -56,14 +58,20 @@ static void qsx_capture_report (void)
 	fflush (NULL);
 	if (stat (qsx_cap1, &a)) a.st_size = -1;
 	if (stat (qsx_cap2, &b)) b.st_size = -1;
-	fprintf (qsx_out, "CAP %ld %ld\n", (long) a.st_size, (long) b.st_size);
+	fprintf (qsx_get_out (), "CAP %ld %ld\n", (long) a.st_size, (long) b.st_size);
 }
-/* from here on the harness never touches the real standard output */
+/* from here on the harness never touches the real standard output; qsx_out is set up on first use
+ * (harness programs that want the capture call qsx_capture_init () first thing in main) */
+static FILE *qsx_get_out (void)
+{
+	if (!qsx_out) qsx_capture_init ();
+	return qsx_out;
+}
 #undef stdout
-#define stdout qsx_out
-#define printf(...) fprintf (qsx_out, __VA_ARGS__)
-#define putchar(c) fputc ((c), qsx_out)
-#define puts(s) (fputs ((s), qsx_out), fputc ('\n', qsx_out))
+#define stdout qsx_get_out ()
+#define printf(...) fprintf (qsx_get_out (), __VA_ARGS__)
+#define putchar(c) fputc ((c), qsx_get_out ())
+#define puts(s) (fputs ((s), qsx_get_out ()), fputc ('\n', qsx_get_out ()))
 
 #define QSX_MAXTOK 200000
 static char *qsx_line = NULL;
